@@ -138,8 +138,10 @@ def energy_from_tof(*, tof: Variable, Ltotal: Variable) -> Variable:
 
 def _energy_transfer_t0(energy, tof, length):
     dtype = _common_dtype(energy, tof)
-    c = as_float_type(_energy_constant(elem_unit(energy), tof, length), energy)
-    return length.astype(dtype, copy=False) * sc.sqrt(c / energy)
+    # Divide in double precision: depending on the units, the constant
+    # can be outside the range of single precision.
+    c = _energy_constant(elem_unit(energy), tof, length)
+    return length.astype(dtype, copy=False) * sc.sqrt(as_float_type(c / energy, energy))
 
 
 def energy_transfer_direct_from_tof(
